@@ -67,6 +67,7 @@ def run_c01(tier):
     for k in range(4 if tier == 'quick' else 300):
         jobs.append({'kind': 'verify-sweep', 'seed': seed * 7919 + k})
     jobs.append({'kind': 'noncanonical-valid', 'seed': seed * 31 + 5, 'case': {}})
+    jobs.append({'kind': 'verify-highx', 'seed': seed * 17 + 3, 'case': {}})                  # a valid signature whose x has the leading bits of p
     jobs.append({'kind': 'pop', 'seed': seed * 13 + 2, 'case': {'tags': ['#padded']}})       # tag pairs: one tag extends the other by a prefix of the suite
     # the hash-to-curve pipeline as a case graph (HashToCurve.tla): chunk classes x representatives x relation
     h2c = vlib.tlc(SPEC, 'HashToCurve', vlib.cfg({}, invariants=['IdentityIffOpposite', 'Emit'], properties=['RepresentativeForgotten', 'Termination']).replace('CONSTANTS\n', ''), name='h2c')
